@@ -78,6 +78,55 @@ example : let t : Items := .cond .ifdef ['A'] (.condElse .ifndef ['B'] (.region 
       (.cond .ifDefined ['C'] (.region 2 (.condElse .ifdef ['D'] (.region 3 .done) (.region 4 .done) .done)) .done)) (.region 5 .done)
     inFamily {} t = true ∧ safe Flags.code t = true := by decide
 
+/-- `safe` is necessary: a family tree (regions labelled apart) that `safe fl` rejects has a region which is live in
+    no extracted configuration — for every variant of the algorithm -/
+theorem region_uncovered_of_unsafe (fl : Flags) (inp : Inp) (t : Items) (hf : inFamily inp t = true)
+    (hreg : t.regions.Nodup) (hs : safe fl t = false) :
+    ∃ r ∈ t.regions, ∀ c ∈ getConfigsWith fl inp t.flatten, live c t r = false := by
+  simp only [inFamily, Bool.and_eq_true, List.isEmpty_iff, decide_eq_true_eq, List.all_eq_true, Bool.not_eq_true'] at hf
+  obtain ⟨⟨hud, hnd⟩, hall⟩ := hf
+  have g : Good (St.init inp) := ⟨rfl, by intro e he; simp [St.init] at he, by simp [St.init]⟩
+  have fr : FreshAll inp (St.init inp) t.macros := by
+    intro x hx
+    have h := hall x hx
+    refine ⟨h.1.1, ?_, ?_, ?_⟩
+    · rintro (⟨c, hc, hd⟩ | ⟨e, he, _⟩)
+      · simp [St.init] at hc; subst hc; rw [defines_nil] at hd; exact absurd hd (by simp)
+      · simp [St.init] at he
+    · have := h.1.2; simpa [St.init] using this
+    · simpa using h.2
+  obtain ⟨r, hr, Y, _, hd, hcf⟩ := walk_uncov fl inp hud t (St.init inp) [] [] g hnd fr hreg (by simp)
+    (by simp [St.init, names]) (by simpa [St.init, safe] using hs)
+  refine ⟨r, hr, ?_⟩
+  intro c hc
+  have hne : r ∉ t.emit (defines c) := by
+    cases hdef : defines c Y with
+    | true =>
+      rcases hcf c hc hdef with h | h
+      · exact h
+      · exact absurd (by simp [sat]) h
+    | false =>
+      intro he
+      have := hd (defines c) he
+      rw [hdef] at this; exact absurd this (by simp)
+  simpa [live] using hne
+
+/-- `safe fl` is exactly the class of family trees on which variant `fl` covers every region -/
+theorem every_region_covered_iff_safe (fl : Flags) (inp : Inp) (t : Items) (hf : inFamily inp t = true)
+    (hreg : t.regions.Nodup) :
+    (∀ r ∈ t.regions, ∃ c ∈ getConfigsWith fl inp t.flatten, live c t r = true) ↔ safe fl t = true := by
+  constructor
+  · intro h
+    cases hs : safe fl t with
+    | true => rfl
+    | false =>
+      obtain ⟨r, hr, hno⟩ := region_uncovered_of_unsafe fl inp t hf hreg hs
+      obtain ⟨c, hc, hl⟩ := h r hr
+      rw [hno c hc] at hl; exact absurd hl (by simp)
+  · exact every_region_covered_of_safe fl inp t hf
+
+example : inFamily {} witnessF15 = true ∧ witnessF15.regions.Nodup ∧ safe Flags.code witnessF15 = false := by decide
+
 /-! ### the repaired algorithm -/
 
 theorem safe_repaired (t : Items) (h : ∀ m ∈ t.macros, okName m = true) : safe Flags.repaired t = true :=
@@ -172,14 +221,19 @@ example : defines "A=1;B=2".toList "B".toList = true := by decide
 
 /-- with `-U X` no extracted configuration defines `X` — for every directive list over well-formed names
     and every variant of the algorithm -/
+theorem dirsOk_spec {ds : List Dir} (h : dirsOk ds = true) : ∀ k m, Dir.opn k m ∈ ds → okName m = true := by
+  intro k m hm
+  simp only [dirsOk, List.all_eq_true] at h
+  exact h _ hm
+
 theorem U_in_no_extracted_config (fl : Flags) (inp : Inp) (ds : List Dir)
-    (hd : ∀ k m, Dir.opn k m ∈ ds → okName m = true) (X : Str) (h : X ∈ inp.undefs) :
+    (hd : dirsOk ds = true) (X : Str) (h : X ∈ inp.undefs) :
     ∀ c ∈ getConfigsWith fl inp ds, defines c X = false :=
-  fun c hc => getConfigs_no_undef fl inp ds hd c hc X h
+  fun c hc => getConfigs_no_undef fl inp ds (dirsOk_spec hd) c hc X h
 
 /-- with `-U X` (and no `-D`) no analysed configuration defines `X` -/
 theorem U_in_no_config (fl : Flags) (o : CliOpts) (d0 : List Str) (ds : List Dir)
-    (hd : ∀ k m, Dir.opn k m ∈ ds → okName m = true) (hud : o.userDefines = []) (X : Str) (h : X ∈ o.undefs) :
+    (hd : dirsOk ds = true) (hud : o.userDefines = []) (X : Str) (h : X ∈ o.undefs) :
     ∀ c ∈ analysed o (getConfigsWith fl (o.inp d0) ds), defines c X = false := by
   intro c hc
   have hmap : ∀ l : List Str, l.map (currentConfig o.userDefines) = l := by
@@ -226,6 +280,9 @@ theorem U_in_no_config_D (o : CliOpts) (gc : List Str) (hm : o.maxConfigs ≤ 1)
       have h'' : c' = o.userDefines := by simpa using List.mem_of_mem_take h'
       rw [← e, h'', hcc]
   rw [this]; exact hX
+
+example : ({ userDefines := "A=1".toList } : CliOpts).maxConfigs ≤ 1 ∧ defines "A=1".toList "B".toList = false := by decide
+example : dirsOk (.els :: .endif :: .opn .ifdef ['A'] :: witnessF15.flatten) = true := by decide
 
 /-- what `simplecpp::preprocess` finally sees: a macro in `-U` is defined in no analysed configuration,
     a macro in `-D` (and not in `-U`) in every one -/
